@@ -21,7 +21,8 @@ NEIGHBOURS = [{"from": "C18", "limit": 400, "why": "the order of inherited and o
               {"from": "C05", "limit": 1200, "why": "evaluation of a conjunctive group stops at its first falsy condition: later conditions are not even prepared"},
               {"from": "C03", "limit": 500, "why": "all invariants are evaluated, in order, at the end of every kind of constructor; the first falsy one is reported"},
               {"from": "C04", "limit": 1500, "why": "inherited postconditions and snapshots of EVERY base precede the own ones"},
-              {"from": "C09", "limit": 600, "why": "the error of the first falsy condition is raised whatever kind of object it is"}]
+              {"from": "C09", "limit": 600, "why": "the error of the first falsy condition is raised whatever kind of object it is"},
+              {"from": "C07", "limit": 500, "tags": ["special", "tick-probes"], "why": "a violated condition is re-evaluated exactly once for its message: every operand with an effect runs twice in all"}]
 
 
 def cases(tier, rng):
